@@ -504,6 +504,10 @@ class Interp:
             # each body statement is `[if <filters>:] D[k] = f(e)` into its own fresh dict: independent comprehensions
             plans = []
             for inner in st.body:
+                if self._guard_only([inner]):
+                    # `if <element is not exact>: raise` fused into the copy loop: it can raise but computes nothing
+                    self.events.append(Event("guard-loop", inner, {"func": fi.qual}))
+                    continue
                 conds: List[ast.AST] = []
                 while isinstance(inner, ast.If) and not inner.orelse and len(inner.body) == 1:
                     conds.append(inner.test)
@@ -657,7 +661,101 @@ class Interp:
                     self.events.append(Event("floordiv" if isinstance(expr.op, ast.FloorDiv) else "truediv-elem",
                                              expr, {"by": ast.unparse(sc), "func": fi.qual}))
                     return "lin", {v: x.mul(inv) or Lin(0) for v, x in c.items()}
+        if isinstance(expr, ast.Call) and isinstance(expr.func, ast.Name) and not expr.keywords and self.depth < self.inline_depth:
+            r = self._elementwise_helper(fi, expr, evars, env)
+            if r is not None:
+                return r
         raise Unsupported(f"element expression {ast.unparse(expr)} at {fi.where(expr)}")
+
+    @staticmethod
+    def _consistent(path: List[Tuple[str, bool]]) -> bool:
+        """sign facts a path states about plain names (`<abs: x >= 0>`, `<ifexp: not x < 0>`) must not contradict each other"""
+        import re as _re
+        facts: Dict[str, Set[str]] = {}
+        for text, truth in path:
+            if not truth:
+                continue
+            body = text[text.index(": ") + 2:].rstrip(">") if text.startswith("<") and ": " in text else text
+            for part in body.split(" & "):
+                neg = part.startswith("not ")
+                m = _re.fullmatch(r"(\w+) (>=|<|>|<=) 0", part[4:] if neg else part)
+                if not m:
+                    continue
+                nm, op = m.group(1), m.group(2)
+                if neg:
+                    op = {">=": "<", "<": ">=", ">": "<=", "<=": ">"}[op]
+                facts.setdefault(nm, set()).add(op)
+        for ops in facts.values():
+            if (">=" in ops or ">" in ops) and "<" in ops:
+                return False
+            if ">" in ops and "<=" in ops:
+                return False
+        return True
+
+    def _elementwise_helper(self, fi: FuncInfo, expr: ast.Call, evars: List[str], env: Env) -> Optional[Tuple[str, Dict[str, Lin]]]:
+        """`helper(element, scalar...)` with a same-module integer helper: the helper is interpreted on a symbolic element; a
+        None result is its way of saying "no whole result" (the caller's guard); every other consistent path must be a
+        multiple of the element.  Several different multiples (a sign that depends on a scalar's sign) are a choice point."""
+        mi = self.prog.modules[fi.module]
+        target = mi.functions.get(expr.func.id)  # type: ignore[union-attr]
+        if target is None or target not in self.prog.functions:
+            return None
+        callee = self.prog.functions[target]
+        params = callee.params()
+        if len(params) != len(expr.args):
+            return None
+        bind: Dict[str, AV] = {}
+        elem_var: Optional[str] = None
+        coef: Optional[Lin] = None
+        for p_, a_ in zip(params, expr.args):
+            try:
+                k, c = self.elementwise(fi, a_, evars, env)
+            except Unsupported:
+                k, c = "", {}
+            if k == "lin" and len(c) == 1 and elem_var is None and any(isinstance(x, ast.Name) and x.id in evars for x in ast.walk(a_)):
+                (elem_var, coef), = c.items()
+                bind[p_] = IntParam("@elem", Lin.sym("@elem"))
+            else:
+                bind[p_] = self.eval(fi, a_, env)
+        if elem_var is None or coef is None:
+            return None
+        self.depth += 1
+        try:
+            outs = self.run(target, bind)
+        except Unsupported:
+            return None
+        finally:
+            self.depth -= 1
+        alts: List[Tuple[Lin, List[Tuple[str, bool]]]] = []
+        for o in outs:
+            if o.kind != "return" or isinstance(o.value, NoneV) or not self._consistent(o.path):
+                continue
+            n_ = self.to_num(o.value)
+            if n_ is None:
+                return None
+            q = n_.rat / Rat.atom("@elem")
+            if "@elem" in q.atoms():
+                return None
+            l = self.rat_as_lin(q)
+            if l is None:
+                return None
+            if not any(l == a for a, _ in alts):
+                alts.append((l, o.path))
+        if not alts:
+            return None
+        self.events.append(Event("elem-helper", expr, {"helper": target, "alternatives": len(alts), "func": fi.qual}))
+        pick = 0
+        if len(alts) > 1:
+            i = len(self.choice_log)
+            pick = self.choice_plan[i] if i < len(self.choice_plan) else 0
+            self.choice_log.append(len(alts))
+            if pick >= len(alts):
+                pick = 0
+            self.choice_notes.append((target, alts[pick][1]))
+        y = coef.mul(alts[pick][0])
+        if y is None:
+            raise Unsupported("non-linear element scaling through a helper")
+        return "lin", {elem_var: y}
 
     @staticmethod
     def as_lin(v: AV) -> Optional[Lin]:
